@@ -1,4 +1,5 @@
 import PyCraft.Props.C11
+import PyCraft.Props.C11Wire
 #print axioms PyCraft.C11.loop_terminates
 #print axioms PyCraft.C11.capR_zero_never_reads
 #print axioms PyCraft.C11.keepalive_echo
@@ -8,3 +9,14 @@ import PyCraft.Props.C11
 #print axioms PyCraft.C11.server_disconnect_clean
 #print axioms PyCraft.C11.no_disconnect_stays_open
 #print axioms PyCraft.C11.caps_irrelevant
+#print axioms PyCraft.C11Wire.client_decodes_server_stream
+#print axioms PyCraft.C11Wire.client_decodes_plain_stream
+#print axioms PyCraft.C11Wire.client_wire_is_frames_of_replies
+#print axioms PyCraft.C11Wire.server_recovers_replies
+#print axioms PyCraft.C11Wire.session_end_to_end
+#print axioms PyCraft.C11Wire.keepalive_echo_bytes
+#print axioms PyCraft.C11Wire.teleport_ack_bytes
+#print axioms PyCraft.C11Wire.position_echo_bytes
+#print axioms PyCraft.C11Wire.replies_are_echo_of_server_bytes
+#print axioms PyCraft.C11Wire.replies_writable
+#print axioms PyCraft.C11Wire.wrong_echo_detected
